@@ -848,7 +848,7 @@ def spec_eval(case):
             want = 1 if spec_match(r, h) else 0
             got = d.calls.count(r)
             if got != want:
-                if want == 1 and got == 0 and d.removed:
+                if want == 1 and got == 0 and d.removed and not d.raised:
                     bad.append(('D7-live-iteration-skip', 'registration %s matches header %d, was registered before and throughout the '
                                 'dispatch, and did not get the packet after a callback unregistered %s' % (r, h, sorted(d.removed)), h))
                 elif want == 1 and got == 0:
@@ -889,7 +889,7 @@ def spec_eval(case):
                 close()
                 cur = Disp()
                 cur.h, cur.a0, cur.r0 = int(t[1:]), list(alls), None
-                cur.allcalls, cur.calls, cur.removed, cur.added = [], [], set(), []
+                cur.allcalls, cur.calls, cur.removed, cur.added, cur.raised = [], [], set(), [], False
             elif cur is None:
                 bad.append(('event-without-packet', t, None))
             elif t == 'D':
@@ -899,7 +899,7 @@ def spec_eval(case):
             elif t == 'THREAD-NOT-ALIVE':
                 bad.append(('dispatcher-died', 'dispatcher thread not alive', cur.h))
             elif t in ('!', 'L'):
-                pass
+                cur.raised = True
             elif t[0] == 'A':
                 apply_op(t)
             elif t[0] == 'a':
@@ -1037,4 +1037,24 @@ def search(ctx):
                 ctx.count('search-violations-suppressed')
                 continue
             reported.add((key, c['family']))
-            ctx.witness(key, what, {'case': case_lines(c), 'mode': c['mode'], 'header': h, 'family': c['family']})
+            ctx.witness(key, what, {'case': case_lines(c), 'mode': c['mode'], 'header': h, 'family': c['family'],
+                                    'ops': [list(op) for op in c['ops']]})
+
+
+def replay(ctx, rp):
+    """./check C07 --replay <file>: re-evaluate the witness case of a replay file on the current tree;
+    returns True iff the real code STILL violates the specification on it (the runner then exits 1)"""
+    import json
+    w = rp.get('witness') or {}
+    inp = w.get('input') or {}
+    if 'ops' not in inp:
+        print('replay file has no failing input (kind=%s): it names broken obligations; run ./check C07 to re-check them' % rp.get('kind'))
+        print(json.dumps(rp.get('broken'), indent=1)[:3000])
+        return False
+    case = {'mode': inp.get('mode', 'sync'), 'family': 'replay', 'ops': [_untuple(op) for op in inp['ops']]}
+    print('request lines:', case_lines(case))
+    print('real code    :', [r for r in real_case(case) if r])
+    bad = spec_eval(case)
+    for key, what, h in bad:
+        print('VIOLATED [%s] %s' % (key, what))
+    return bool(bad)
